@@ -15,6 +15,7 @@ import SygmaModel.Model.Pipeline
 import SygmaModel.Props.C01
 import SygmaModel.Props.C02
 import SygmaModel.Props.C14
+import SygmaModel.Props.C03
 namespace Sygma.Pipeline
 open Sygma
 
@@ -43,6 +44,46 @@ theorem pick_flatten (ds : List Delivered) (xs : List (List Nat)) :
     (xs.map (pick ds)).flatten = pick ds xs.flatten := by
   unfold pick
   rw [List.filterMap_flatten]
+
+/-- the pallet's answer for one delivered proposal -/
+def subAns (x : C01.Proposal × Option Bool) : C03.Ans :=
+  match x.2 with | none => .err | some true => .exec | some false => .notExec
+
+theorem subDelivery_eq (ds : List (C01.Proposal × Option Bool)) :
+    subDelivery ds = ds.zipIdx.map fun x => (x.2, subAns x.1) := by
+  unfold subDelivery subAns; rfl
+
+theorem zip_hasErr (ds : List (C01.Proposal × Option Bool)) (k : Nat) :
+    ((ds.zipIdx k).map fun x => (x.2, subAns x.1)).any (·.2 = C03.Ans.err) = ds.any (·.2 = none) := by
+  induction ds generalizing k with
+  | nil => simp
+  | cons d ds ih =>
+    simp only [List.zipIdx_cons, List.map_cons, List.any_cons, ih (k+1)]
+    rcases d with ⟨p, _ | b⟩
+    · simp [subAns]
+    · cases b <;> simp [subAns]
+
+theorem subDelivery_hasErr (ds : List (C01.Proposal × Option Bool)) :
+    C03.hasErr (subDelivery ds) = ds.any (·.2 = none) := by
+  rw [subDelivery_eq]; exact zip_hasErr ds 0
+
+theorem subDelivery_wanted (pre ds : List (C01.Proposal × Option Bool)) :
+    ((((ds.zipIdx pre.length).map fun x => (x.2, subAns x.1)).filter (·.2 = C03.Ans.notExec)).map (·.1)).filterMap
+        (fun i => ((pre ++ ds)[i]?).map fun d => toProp' d.1)
+      = (ds.filter (·.2 = some false)).map (fun d => toProp' d.1) := by
+  induction ds generalizing pre with
+  | nil => simp
+  | cons d ds ih =>
+    have h' := ih (pre ++ [d])
+    simp only [List.append_assoc, List.singleton_append, List.length_append, List.length_cons, List.length_nil] at h'
+    simp only [List.zipIdx_cons, List.map_cons, List.filter_cons]
+    rcases d with ⟨p, _ | b⟩
+    · simpa [subAns] using h'
+    · cases b
+      · have hget : (pre ++ (p, some false) :: ds)[pre.length]? = some (p, some false) := by simp
+        simp only [subAns, decide_true, if_true, List.map_cons, List.filterMap_cons, hget, Option.map_some]
+        simpa [subAns] using h'
+      · simpa [subAns] using h'
 
 end Helpers
 
@@ -120,6 +161,25 @@ theorem signed_digest_binds (H : C02.Hash) (hlen : ∀ x, (H x).length = 32)
     (h : C02.Spec.digest H c a b = C02.Spec.digest H c' a' b') :
     (c = c' ∧ a = a' ∧ b = b') ∨ C02.Collision H :=
   C02.digest_binding H hlen C02.Spec.version c c' a a' b b' hb hb' h
+
+/-- **Substrate destination.** If no executed-lookup fails, the (at most one) digest handed to signing commits, in
+    order, to exactly the proposals the pallet reports as not executed; if a lookup fails nothing is signed. -/
+theorem sub_committed_is_pending (ds : List (C01.Proposal × Option Bool)) :
+    (if ds.any (·.2 = none) then subCommitted ds = []
+     else (subCommitted ds).flatten = (ds.filter (·.2 = some false)).map (fun d => toProp' d.1)) := by
+  have hP := C03.sub_P03 (subDelivery ds)
+  unfold C03.P03ord at hP
+  rw [subDelivery_hasErr] at hP
+  split
+  · next h => rw [if_pos h] at hP; simp [subCommitted, hP]
+  · next h =>
+    rw [if_neg h] at hP
+    obtain ⟨hflat, _⟩ := hP
+    unfold subCommitted
+    rw [← List.filterMap_flatten, hflat]
+    have := subDelivery_wanted [] ds
+    rw [subDelivery_eq]
+    simpa [C03.wanted] using this
 
 /-- non-vacuity: a delivery of three proposals, the middle one executed, cap reached after each — two signed
     batches committing to the first and the third -/
